@@ -82,7 +82,7 @@ CLAIMS = {
          "covers the store of Stopped(pc); the breakpoint test dominates every step of a free run and searches the shared list under its lock, exempting only the address the machine was halted at; next/stepIn/stepOut step under the same guard and stop through pause; next/stepOut follow the call depth (jsr/rts paired, not the stack pointer); breakpoints are kept per source file; evaluate fetches registers and flags on every path to the expression evaluator; every address range of a source line keeps its breakpoint; the adapter-backed ram() is registered only for machines without a program of their own. All other interleavings and stepping on concrete programs are not decided.", "§4 C19"),
  "C20": ("ownership/escape rule for Arc::try_unwrap + call-graph rules for blocking primitives + self-deadlock analysis over lock guards (MIR must-liveness)",
          "No force-unwrapped Arc::try_unwrap on an Arc whose clone another long-lived owner keeps; no joined thread can sit in a blocking accept; shutdown notifies handlers "
-         "before answering, never waits on another thread while doing so, and the debug session listens for it and completes the selected operation; no thread asks for a lock it already holds; a thread that its owner joins has no untimed wait the owner does not wake; the exit status does not depend on the debugger thread (no forced join result, no explicit panic reachable from the session loop outside a table, no forced configuration); shutdown handlers registered late are signalled at once; sleeps reachable from joined threads are bounded constants; the thread that accepts connections reads from no socket without a timeout; no destructor waits for a thread and the debugger thread is joined only behind the language server's main loop. Promptness beyond that and the cancellation of a step that never ends are not decided.", "§4 C20"),
+         "before answering, never waits on another thread while doing so, and the debug session listens for it and completes the selected operation; no thread asks for a lock it already holds; a thread that its owner joins has no untimed wait the owner does not wake; the exit status does not depend on the debugger thread (no forced join result, no explicit panic reachable from the session loop outside a table, no forced configuration); shutdown handlers registered late are signalled at once; sleeps reachable from joined threads are bounded constants; the thread that accepts connections reads from no socket without a timeout; no destructor waits for a thread and the debugger thread is joined only behind the language server's main loop; in the whole-program lock-class graph no two classes are taken in opposite orders by different threads and none is re-acquired through a callee, outside two tabled pairs of distinct instances. Promptness beyond that and the cancellation of a step that never ends are not decided.", "§4 C20"),
 }
 
 NA = {
